@@ -33,7 +33,7 @@ THEOREMS = ["TLX.Props.C04." + n for n in (
     "empty_cid_never_chosen", "short_with_only_empty_cids_falls_to_tuple", "short_choice_is_longest", "short_never_creates",
     "tls_quic_independent", "tcp_leaves_quic_alone", "udp_leaves_tls_alone", "unrelated_ignored", "ignored_iff",
     "run_tls_sessions_merge", "Ex.capC_is_merge", "Ex.capAB_disjoint", "Ex.separated_example", "Ex.quic_cross_routing_by_prefix",
-    "Ex.quic_cross_routing_by_tuple")] + ["TLX.Props.C18." + n for n in (
+    "Ex.quic_cross_routing_by_tuple", "Ex.quic_route_counterexample")] + ["TLX.Props.C18." + n for n in (
     "reset_is_fresh", "run_ignores_prior_state", "run_twice_same", "export_is_function", "fresh_run_is", "legacy_run_leaks",
     "cid_choice_order_independent", "session_choice_order_independent", "cid_choice_ignores_duplicates",
     "legacy_choice_order_dependent")]
@@ -539,6 +539,30 @@ def corr_run(ctx, n_caps):
         finally:
             m.handle_packet, m.handle_quic_packet = real_hp, real_hq
             tool._reset_module_state(m)
+
+
+def replay_cross_routing():
+    """The witness of `C04.Ex.quic_route_counterexample` on the REAL `handle_quic_packet` (recording sessions, real sets):
+    returns the decisions for a1, b1, b2 merged and for b1, b2 alone."""
+    from tlexport.packet import Packet
+    ip = lambda x: bytes([10, 0, 0, x])
+    long = lambda d: bytes([0xC0, 0, 0, 0, 1, len(d)]) + d + bytes([0, 1, 2, 3])
+    a1 = dict(tag=1, l4="u", sip=ip(1), sport=5000, dip=ip(9), dport=443, payload=long(b"\xaa"), ck=True, cc=[b"\x02"], sc=[b"\xaa"])
+    b1 = dict(tag=2, l4="u", sip=ip(2), sport=6000, dip=ip(9), dport=443, payload=long(b"\xbb"), ck=True, cc=[b"\x02\x07"], sc=[b"\xbb"])
+    b2 = dict(tag=3, l4="u", sip=ip(9), sport=443, dip=ip(2), dport=6000, payload=bytes([0x40, 2, 7, 99, 98]), ck=True, cc=[], sc=[])
+    res = {}
+    rec = Recorder()
+    with Patched(rec) as m:
+        m.server_ports[:] = [443, 44330, 443]
+        for name, seq in (("merged", [a1, b1, b2]), ("alone", [b1, b2])):
+            qs, out = [], []
+            rec.script = {p["tag"]: (p["cc"], p["sc"]) for p in seq}
+            for p in seq:
+                before = len(qs)
+                m.handle_quic_packet(Packet(frame_of(p), float(p["tag"])), [], qs, {}, True)
+                out.append(rec.decision("quic", before, qs))
+            res[name] = out
+    return res
 
 
 def correspond(ctx, scale=1):
